@@ -132,3 +132,48 @@ func selfTest(verif, repo, prop, work string) *selfTestResult {
 	}
 	return res
 }
+
+// The lemmas about the spec functions that the SMT solvers take as axioms (they need induction) are proved
+// in Lean 4 + Mathlib over hand-transcribed definitions: /verif/lean/LemmaL.lean (L1, L2) and LemmaU.lean
+// (treap uniqueness). The thorough tier of the properties that use them re-checks the files.
+func leanFilesFor(prop string) []string {
+	switch prop {
+	case "C13":
+		return []string{"LemmaL.lean", "LemmaU.lean"}
+	case "C01":
+		return []string{"LemmaL.lean"}
+	}
+	return nil
+}
+
+type leanResult struct {
+	What    string   `json:"what"`
+	Checked []string `json:"checked"`
+	Failed  []string `json:"failed"`
+	Lines   []string `json:"-"`
+}
+
+func checkLean(verif string, files []string) *leanResult {
+	r := &leanResult{What: "lean 4.33 + Mathlib re-checks the induction lemmas that prelude.smt2 states as axioms (L1: no member of a heap-ordered search tree outranks the root; L2: cnt of a search tree = number of its keys; U: a treap is determined by its key/priority pairs); the Lean definitions are transcribed from the prelude by hand"}
+	for _, f := range files {
+		c := exec.Command("lean", f)
+		c.Dir = filepath.Join(verif, "lean")
+		out, err := c.CombinedOutput()
+		txt := string(out)
+		if err != nil || strings.Contains(txt, "error") || strings.Contains(txt, "sorry") {
+			r.Failed = append(r.Failed, f)
+			r.Lines = append(r.Lines, "UNDECIDED lemma file "+f+" is not accepted by lean: "+strings.TrimSpace(firstLine(txt)))
+		} else {
+			r.Checked = append(r.Checked, f)
+			r.Lines = append(r.Lines, "LEMMAS "+f+" accepted by lean (no sorry)")
+		}
+	}
+	return r
+}
+
+func firstLine(s string) string {
+	if i := strings.Index(s, "\n"); i >= 0 {
+		return s[:i]
+	}
+	return s
+}
